@@ -283,6 +283,17 @@ theorem locations_accumulate (g : Graph) (hsep : LocsSeparated g) (s : State) (n
     fun t => mem_foldl_pushNew _ _ t,
     foldl_pushNew_of_subset _ _ (fun x hx => (mem_foldl_pushNew _ _ x).mpr (Or.inr hx))⟩
 
+/-- **The entry determines its tokens.**  On blank-free non-empty tokens the blank-join is injective: the list of
+sources a test reads out of `get_location_<vm>` (by splitting at blanks) is the list the theorems above speak of, not
+merely a list with the same join; in particular the token list `T` of `locations_invariant` and
+`start_locations_exact` is unique. -/
+theorem entry_determines_tokens (L L' : List String) (hL : ∀ l ∈ L, ' ' ∉ l.toList ∧ l ≠ "")
+    (hL' : ∀ l ∈ L', ' ' ∉ l.toList ∧ l ≠ "") (h : joinLocs L = joinLocs L') : L = L' :=
+  joinLocs_inj L L' hL hL' h
+
+example : joinLocs [sharedLoc, workerLoc gSub 1] = ":/pool/shared net1:/pool/swarm" := by decide
+example := entry_determines_tokens [sharedLoc, workerLoc gSub 1] [sharedLoc, workerLoc gSub 1] (by decide) (by decide) rfl
+
 /-- `LocsSeparated` cannot be dropped: on the witness instance of `location_swallowed_by_substring` (worker ids
 `cluster1.net1` and `net1`) the hypothesis fails and so does the conclusion of `locations_exact` — both workers passed
 the producer, the entry lists one of them. -/
